@@ -261,3 +261,16 @@ impl<T: Debug + Clone + SegtreeItem<M>, M: Debug> Segtree<T, M> {
         format!("{:?}", (0..self.n).map(|i| self.ask(i, i)).collect::<Vec<_>>())
     }
 }
+
+#[cfg(feature = "verif")]
+impl<T, M> Segtree<T, M> {
+    /// Read-only view of the node array (verification harness only)
+    pub fn verif_nodes(&self) -> &[T] {
+        &self.data
+    }
+
+    /// Number of elements (verification harness only)
+    pub fn verif_len(&self) -> usize {
+        self.n
+    }
+}
